@@ -329,8 +329,16 @@ func (s *stickyBalanceStrategy) balance(currentAssignment map[string][]topicPart
 	// if we are not preserving existing assignments and we have made changes to the current assignment
 	// make sure we are getting a more balanced assignment; otherwise, revert to previous assignment
 	if !initializing && reassignmentPerformed && getBalanceScore(currentAssignment) >= getBalanceScore(preBalanceAssignment) {
-		currentAssignment = deepCopyAssignment(preBalanceAssignment)
-		currentPartitionConsumer = make(map[topicPartitionAssignment]string, len(preBalancePartitionConsumers))
+		// restore the caller's maps in place (assigning to the parameters would leave the caller with the rejected assignment)
+		for memberID := range currentAssignment {
+			delete(currentAssignment, memberID)
+		}
+		for memberID, partitions := range deepCopyAssignment(preBalanceAssignment) {
+			currentAssignment[memberID] = partitions
+		}
+		for k := range currentPartitionConsumer {
+			delete(currentPartitionConsumer, k)
+		}
 		for k, v := range preBalancePartitionConsumers {
 			currentPartitionConsumer[k] = v
 		}
